@@ -49,10 +49,13 @@ def check(ctx: Ctx) -> str:
     ng = repo.cls("nativetypes:NativeCodeGenerator")
     pre, post = ng.methods.get("_output_child_pre"), ng.methods.get("_output_child_post")
     ctx.need(pre is not None and post is not None, "NativeCodeGenerator output hooks vanished")
+    from ..normalize import norm as _n
+
+    pre, post = _n(pre), _n(post)  # a local naming finalize.src is inlined; early return and if/else are one form
     pw = [c for c in astq.calls(pre) if astq.callee(c) == "self.write"]
     qw = [c for c in astq.calls(post) if astq.callee(c) == "self.write"]
     ok = len(pw) == 1 and len(qw) == 1 and ast.unparse(pw[0].args[0]) == "finalize.src" and ast.unparse(qw[0].args[0]) == "')'" \
-        and [(ast.unparse(g), p) for g, p in guards_of(pw[0])] == [("finalize.src is not None", True)] and [(ast.unparse(g), p) for g, p in guards_of(qw[0])] == [("finalize.src is not None", True)]
+        and astq.guard_atoms(pre, pw[0]) == [("finalize.src is None", False)] and astq.guard_atoms(post, qw[0]) == [("finalize.src is None", False)]
     ctx.check(ok, "hooks-balanced", "nativetypes:NativeCodeGenerator", "pre/post balance", "the native output hooks must open finalize.src and close it with ')' under the same condition, and write nothing else", ng.loc())
     res = get_paths(ctx, ["visit_Output"], "nativetypes:NativeCodeGenerator")
     n = 0
@@ -68,18 +71,24 @@ def check(ctx: Ctx) -> str:
     df = ng.methods.get("_default_finalize")
     ctx.check(df is not None and ast.unparse(astq.returns(df)[0].value) == "value", "default_finalize", "nativetypes:NativeCodeGenerator._default_finalize", "identity finalize", "the native default finalize must return the value unchanged", ng.loc())
     cr = ng.methods.get("_output_const_repr")
-    ctx.check(cr is not None and ast.unparse(astq.returns(cr)[0].value) == "repr(''.join([str(v) for v in group]))", "const_repr", "nativetypes:NativeCodeGenerator._output_const_repr", "constant group repr", "a constant group is emitted as the repr of its joined text", ng.loc())
+    crv = astq.returns(_n(cr))[0].value if cr is not None else None
+    cr_ok = False
+    if isinstance(crv, ast.Call) and astq.callee(crv) == "repr" and len(crv.args) == 1 and isinstance(crv.args[0], ast.Call) and ast.unparse(crv.args[0].func) == "''.join" and isinstance(crv.args[0].args[0], (ast.ListComp, ast.GeneratorExp)):
+        comp_ = crv.args[0].args[0]
+        g_ = comp_.generators[0]
+        cr_ok = len(comp_.generators) == 1 and not g_.ifs and ast.unparse(g_.iter) == "group" and ast.unparse(comp_.elt) == f"str({ast.unparse(g_.target)})"
+    ctx.check(cr_ok, "const_repr", "nativetypes:NativeCodeGenerator._output_const_repr", "constant group repr", "a constant group is emitted as the repr of its joined text", ng.loc())
 
     ctx.rule("R1", "NativeTemplate.render / render_async join with the native concat and keep the async dispatch; NativeEnvironment wires code generator, concat and template class")
     nt = repo.cls("nativetypes:NativeTemplate")
     for meth in ("render", "render_async"):
         fn = nt.methods[meth]
-        s = ast.unparse(fn)
-        ctx.check("self.environment_class.concat(" in s and "self.root_render_func(ctx)" in s, f"{meth}:concat", f"nativetypes:NativeTemplate.{meth}", "native concat", f"{meth} must join the root generator's output with the native concat", nt.loc(fn))
+        s = ast.unparse(_n(fn))  # locals naming the context / the concat hook are inlined
+        ctx.check("self.environment_class.concat(" in s and "self.root_render_func(self.new_context(dict(*args, **kwargs)))" in s, f"{meth}:concat", f"nativetypes:NativeTemplate.{meth}", "native concat", f"{meth} must join the root generator's output with the native concat", nt.loc(fn))
     s = ast.unparse(nt.methods["render"])
     ctx.check("if self.environment.is_async:" in s and "self.render_async(*args, **kwargs)" in s, "render:dispatch", "nativetypes:NativeTemplate.render", "async dispatch", "NativeTemplate.render must run render_async in async environments", nt.loc())
-    s = ast.unparse(nt.methods["render_async"])
-    ctx.check("[n async for n in self.root_render_func(ctx)]" in s, "render_async:collect", "nativetypes:NativeTemplate.render_async", "collects all pieces", "render_async must collect every piece before joining", nt.loc())
+    comps_ = [c_ for c_ in ast.walk(_n(nt.methods["render_async"])) if isinstance(c_, ast.ListComp) and len(c_.generators) == 1 and c_.generators[0].is_async and not c_.generators[0].ifs and ast.unparse(c_.generators[0].iter).startswith("self.root_render_func(") and ast.unparse(c_.elt) == ast.unparse(c_.generators[0].target)]
+    ctx.check(len(comps_) == 1, "render_async:collect", "nativetypes:NativeTemplate.render_async", "collects all pieces", "render_async must collect every piece before joining", nt.loc())
     ne = repo.cls("nativetypes:NativeEnvironment")
     ctx.check(ast.unparse(ne.assigns.get("code_generator_class", ast.Constant(None))) == "NativeCodeGenerator" and ast.unparse(ne.assigns.get("concat", ast.Constant(None))) == "staticmethod(native_concat)", "env:wiring", "nativetypes:NativeEnvironment", "class attributes", "NativeEnvironment must use NativeCodeGenerator and native_concat", ne.loc())
     m = repo.module("nativetypes")
@@ -111,7 +120,9 @@ def check(ctx: Ctx) -> str:
     ctx.floor("plain concat sites", nsite, 4)
     br = repo.cls("runtime:BlockReference")
     for meth in ("__call__", "_async_call"):
-        s = ast.unparse(br.methods[meth])
+        from ..normalize import norm as _norm
+
+        s = ast.unparse(_norm(br.methods[meth]))  # a local naming self._context is inlined
         ctx.check("self._context.environment.concat(" in s, f"BlockReference.{meth}:env-concat", f"runtime:BlockReference.{meth}", "joins with environment.concat", f"BlockReference.{meth} must join the block's output with environment.concat", br.loc(br.methods[meth]))
     wc = repo.func("compiler:CodeGenerator.write_commons")
     ctx.check("concat = environment.concat" in ast.unparse(wc.node), "generated:concat", "compiler:CodeGenerator.write_commons", "generated code binds concat to environment.concat", "generated code must join buffers with environment.concat", wc.loc())
